@@ -132,8 +132,13 @@ class DtdMapper:
             The mapped attr type instance.
         """
         if attribute.type == DtdAttributeType.ENUMERATION:
-            cls.build_enumeration(target, attribute.name, attribute.values)
-            return AttrType(qname=attribute.name, forward=True)
+            # xml:lang and lang can both be enumerations of the same element
+            name = attribute.name
+            if attribute.prefix:
+                name = f"{attribute.prefix}_{name}"
+
+            cls.build_enumeration(target, name, attribute.values)
+            return AttrType(qname=name, forward=True)
 
         return AttrType(qname=str(attribute.data_type), native=True)
 
